@@ -3,6 +3,7 @@ package compaction
 import (
 	"bytes"
 	"fmt"
+	"github.com/KevoDB/kevo/pkg/verifhook"
 	"os"
 	"sort"
 	"time"
@@ -76,6 +77,7 @@ func (e *DefaultCompactionExecutor) CompactFiles(task *CompactionTask) ([]string
 				return fmt.Errorf("failed to finish SSTable: %w", err)
 			}
 			outputFiles = append(outputFiles, currentOutputPath)
+			verifhook.At("compact.outputFinished")
 		}
 
 		// Create a new output file
@@ -168,6 +170,7 @@ func (e *DefaultCompactionExecutor) CompactFiles(task *CompactionTask) ([]string
 			return nil, fmt.Errorf("failed to finish SSTable: %w", err)
 		}
 		outputFiles = append(outputFiles, currentOutputPath)
+		verifhook.At("compact.outputFinished")
 	} else if currentWriter != nil {
 		// No entries were written, abort the file
 		currentWriter.Abort()
